@@ -417,4 +417,13 @@ def R5_ported_pairs(run):
     run.floor("R5", "ported pairs", len(PAIRS), 25)
 
 
-RULES = [R1_layouts, R2_discriminators, R3_accessors, R4_routing, R4b_entry_forwarding, R5_ported_pairs]
+def R6_cross_checks(run):
+    run.title("R6", "the byte-level encoding written by the Pinocchio dynamic tick array is the Anchor loader's (C13.R1-R3 instances)")
+    from rules.common import RuleProxy
+    from rules import C13
+    C13.R1_constants(RuleProxy(run, 'R6'))
+    C13.R2_shift_bitmap_pairing(RuleProxy(run, 'R6'))
+    C13.R3_byte_offset(RuleProxy(run, 'R6'))
+
+
+RULES = [R1_layouts, R2_discriminators, R3_accessors, R4_routing, R4b_entry_forwarding, R5_ported_pairs, R6_cross_checks]
